@@ -140,6 +140,11 @@ def _mutations_of_cached_results(fn, cached):
                 for t in n.targets:
                     if isinstance(t, ast.Name):
                         bound[t.id] = name
+                    elif isinstance(t, (ast.Tuple, ast.List)):
+                        # `index, values = cached(...)`: every component is part of the cached object
+                        for x in t.elts:
+                            if isinstance(x, ast.Name):
+                                bound[x.id] = name
     if not bound:
         return out
     for n in ast.walk(fn):
